@@ -1,6 +1,7 @@
 """C01 — query answers are a pure function of file and query; batching is transparent."""
 import json, os, random
 from common import *
+import twins
 
 LEVEL = "proof"
 RULE = ("correspondence: generated worlds (area features, plumes; both coordinate systems; all modelled models, no random models) queried through "
@@ -22,6 +23,22 @@ def fresh_answer(world_path, cmd):
 def correspondence(seed, tier):
     n = budget(tier, 25, 400)
     rs = [corr.run_corr(seed * 1000 + k, "C01_%d" % k, n, 25, {"with_random": False, "with_lines": True}) for k in range(budget(tier, 1, 3))]
+    # the stacked subset-of-models worlds of the oracle (other seed), model vs library bit for bit
+    rng = random.Random(seed * 611953 + 11)
+    wdir = proto.workdir("C01_stack")
+    lines = []
+    for k in range(budget(tier, 10, 60)):
+        g = StackGen(rng)
+        path = os.path.join(wdir, "stack_%d.wb" % k)
+        json.dump(g.w, open(path, "w"))
+        lines.append("world w %s -" % path)
+        for (p, d) in g.queries(g.w, 8):
+            lines.append(q3("w", p, d, g.props(5)))
+        if "cross section" in g.w:
+            for (p, d) in g.queries2d(g.w, 4):
+                lines.append(q2("w", p, d, g.props(5)))
+        lines.append("free w")
+    rs.append(corr_lines(lines))
     res = summarize_corr(rs)
     # triage: a disagreement is a failing input of C01 itself if the library's answer inside the session (other worlds alive,
     # earlier queries made) differs from its answer to the same command in a fresh process
@@ -38,11 +55,65 @@ def correspondence(seed, tier):
     return res
 
 
+class StackGen:
+    """structured world: two to four area features over the same square, each carrying a random SUBSET of the four model kinds (temperature, composition,
+    velocity, grains) - so a later feature regularly lacks the models for a property an earlier one painted - queried inside all of them with request batches
+    of every size.  (What one block of a batch contains may not depend on which other properties are requested with it.)"""
+    spherical = False
+
+    def __init__(self, rng):
+        self.rng = rng
+        sq = [[-300e3, -300e3], [300e3, -300e3], [300e3, 300e3], [-300e3, 300e3]]
+        feats = []
+        for i in range(rng.randint(2, 4)):
+            f = {"model": rng.choice(["continental plate", "oceanic plate", "mantle layer"]), "name": "s%d" % i, "coordinates": sq, "min depth": 0, "max depth": rng.choice([100e3, 150e3])}
+            kinds = [k for k in "TCVG" if rng.random() < 0.5]
+            if "T" in kinds:
+                f["temperature models"] = [{"model": "uniform", "temperature": rng.choice([500, 900.5, 1300]), "operation": rng.choice(["replace", "add"])}]
+            if "C" in kinds:
+                f["composition models"] = [{"model": "uniform", "compositions": [rng.choice([0, 1])], "fractions": [rng.choice([1, 0.25])]}]
+            if "V" in kinds:
+                f["velocity models"] = [{"model": "uniform raw", "velocity": [rng.choice([0.03, -0.01]), rng.choice([-0.002, 0.02]), rng.choice([0, 0.005])]}]
+            if "G" in kinds:
+                f["grains models"] = [{"model": "uniform", "compositions": [0], "grain sizes": [0.25], "rotation matrices": [[[0, -1, 0], [1, 0, 0], [0, 0, 1]]]}]
+            feats.append(f)
+        self.w = {"version": "1.1", "features": feats}
+        if rng.random() < 0.5:
+            self.w["cross section"] = [[-250e3, -100e3], [250e3, 150e3]]
+
+    def queries(self, w, n):
+        r = self.rng
+        out = []
+        for _ in range(n):
+            d = r.uniform(1e3, 140e3)
+            out.append(([r.uniform(-280e3, 280e3), r.uniform(-280e3, 280e3), 1000e3 - d], d))
+        return out
+
+    def queries2d(self, w, n):
+        r = self.rng
+        out = []
+        for _ in range(n):
+            d = r.uniform(1e3, 140e3)
+            out.append(([r.uniform(10e3, 500e3), 1000e3 - d], d))
+        return out
+
+    def props(self, nmax):
+        r = self.rng
+        pool = [(1, 0, 0), (2, 0, 0), (2, 1, 0), (3, 0, 1), (4, 0, 0), (5, 0, 0)]
+        return r.sample(pool, r.randint(1, min(nmax, 4)))
+
+
 def oracle(seed, tier):
     rng = random.Random(seed * 7919 + 1)
     wdir = proto.workdir("C01_oracle")
     nworlds = budget(tier, 12, 150)
     worlds = gen_worlds(rng, wdir, "o", nworlds, {"with_random": False, "with_lines": True})
+    for k in range(budget(tier, 6, 40)):
+        g = StackGen(rng)
+        path = os.path.join(wdir, "stack_%d.wb" % k)
+        json.dump(g.w, open(path, "w"))
+        worlds.append((path, g.w, g))
+    nworlds = len(worlds)
     lines, checks = [], []
     for wi, (path, w, g) in enumerate(worlds):
         lines.append("world w%d %s -" % (wi, path))
@@ -141,6 +212,9 @@ def oracle(seed, tier):
                              "batched_cmd": lines[i], "batched_answer": out[i][:600], "other_cmd": "(same command, fresh process, this world alone)",
                              "other_answer": (out2[k + 1][:600] if k + 1 < len(out2) else "crash"), "relation": "fresh-process", "session_lines": len(lines)})
                 break
+    # twin worlds (two disjoint features, same model type, different parameters): a twin's answers may not depend on the other twin having been evaluated before
+    ct, nt = twins.twin_oracle(rng, budget(tier, 10, 1000), wdir, viol)
+    cases += ct
     samples = [{"batched": lines[i], "answer": out[i][:160]} for i, ch in enumerate(checks[:len(out)]) if ch and ch[0] == "batched"][:3]
     return {"violations": trim_violations(viol, 20), "summary": {"cases": cases, "violations": len(viol), "nontrivial": len(nontriv), "worlds": nworlds}, "samples": samples}
 
